@@ -141,6 +141,27 @@ def run_case(seed):
     cn = rng.randrange(3)
     pkind = rng.choice(['keep', 'keep', 'affine', 'const'])
     gen_payload(rng, pf, cn, pkind)
+    rb = random.Random(seed * 9137 + 41)
+    if rb.random() < 0.3:
+        # the printed bounds of the boxes that touch a domain face along the normal are one unit in the last place INSIDE the
+        # domain (low + index * dx computed in floating point need not hit the stated domain bound digit for digit)
+        pf.bound_nudge = {}
+        for lv, lev in enumerate(pf.levels):
+            top = pf.grid_size(lv)[cn]
+            for bi, (lo, hi) in enumerate(lev.boxes):
+                na = 1 if lo[cn] == 0 and pf.geo_low[cn] != 0 and rb.random() < 0.7 else 0
+                nb = -1 if hi[cn] + 1 == top and rb.random() < 0.7 else 0
+                if na or nb:
+                    pf.bound_nudge[(lv, bi, cn)] = (na, nb)
+        pf.meta['face_bounds_one_ulp_inside'] = len(pf.bound_nudge)
+    count(f"printed face bounds one ulp inside the domain={bool(getattr(pf, 'bound_nudge', None))}")
+    rk = random.Random(seed * 9137 + 43)
+    if rk.random() < 0.2:
+        # a field called like an entry mandoline adds to its result ('time', 'dx'): the field is what the caller asked for
+        nm = rk.choice(['time', 'dx'])
+        if nm not in pf.fields:
+            pf.fields[rk.randrange(len(pf.fields))] = nm
+        count("a field named time / dx")
     keys = c01.reader_keys(pf.fields)
     path = core.scratch_dir(f"c07_{seed}")
     gen.write_plotfile(pf, path)
@@ -246,7 +267,11 @@ def run_case(seed):
             want = interpolate(orc, pos_f, to_float)
             for n, w in zip(names, want):
                 got = np.asarray(o.get(n))
-                if got.shape != w.shape or got.tobytes() != w.tobytes():
+                # (with printed bounds an ulp off the cell-centre coordinates, hence the weights, are computed from other
+                # floats: equal to floating-point accuracy instead of bit for bit)
+                loose = bool(getattr(pf, 'bound_nudge', None))
+                if got.shape != w.shape or (got.tobytes() != w.tobytes() and not (
+                        loose and np.allclose(got, w, rtol=1e-11, atol=1e-11 * max(1.0, float(np.nanmax(np.abs(w)))), equal_nan=True))):
                     nbad = int((got != w).sum()) if got.shape == w.shape else -1
                     bad = (f"output[{n!r}] is not the linear interpolation between the bracketing cell-centre samples of the finest "
                            f"level offering them ({nbad} pixels differ)")
